@@ -41,12 +41,26 @@ def extract(g, X):
         b = X.fn_body(types, "raw_image_data")
         # the match over the filters after the split point (whatever the local is called): its arms are
         # one-element slice patterns, its wildcard arm bails
-        m = re.search(r"match\s+\w+\s*\{\s*\[\s*\]\s*=>(.*?)_\s*=>\s*bail!", b, flags=re.S)
+        m = re.search(r"match\s+(\w+)\s*\{\s*\[\s*\]\s*=>", b)
         if not m:
             raise ValueError("match over the remaining filters not found")
+        arms = X.match_arms(b[m.start():], m.group(1))
+        if not re.match(r"bail!", arms[-1].expr) or arms[-1].pattern != "_":
+            raise ValueError("the wildcard arm no longer bails")
         out = []
-        for am in re.finditer(r"\[\s*StreamFilter::(\w+)(?:\s*\([^)]*\))?\s*\]", m.group(1)):
-            out.append(CODES[am.group(1)])
+        # `[A(_)] | [B]` and `[A(_) | B]` are the same one-element slice patterns
+        for arm in arms[:-1]:
+            for pt in arm.pats:
+                if re.fullmatch(r"\[\s*\]", pt):
+                    continue
+                inner = re.fullmatch(r"\[(.*)\]", pt, flags=re.S)
+                if not inner or arm.guard is not None:
+                    raise ValueError("slice pattern %r" % pt)
+                for alt in X.split_top(inner.group(1), "|"):
+                    n = X.variant_name(alt)
+                    if n is None or n not in CODES or not re.match(r"StreamFilter::", alt.strip()):
+                        raise ValueError("slice pattern %r" % alt)
+                    out.append(CODES[n])
         if not out:
             raise ValueError("no codec arms")
         return X.cl(X.ordered(out, [6, 7, 8, 5, 9]))
